@@ -15,6 +15,7 @@ TRUSTED = ['C05: urllib.parse.quote_plus / unquote_plus and str.encode("utf-8") 
 ASSUMPTIONS = ['text values: None, or str without lone surrogates']
 
 ALPHABET = set(b'ABCDEFGHIJKLMNOPQRSTUVWXYZabcdefghijklmnopqrstuvwxyz0123456789_.-~+%')
+ALPHABET_STR = set('ABCDEFGHIJKLMNOPQRSTUVWXYZabcdefghijklmnopqrstuvwxyz0123456789_.-~+%#$')
 RES3 = ['|', '#', '$', '%', '+', '*', '~', ' ', '\r', '\n', '\x00', 'é', '€', '😀',
         'a', 'Z', '0', '_', '.', '-', '/', '=', '&', '?', '"']
 
@@ -174,7 +175,46 @@ def run(ctx, res):
         if dm != [sym('ok'), sx_utext(got)]:
             res.disagreements.append({'case': {'token': t}, 'model': dm, 'impl': got,
                                       'relation': 'Codec.decode_utext = protocol.decode_string (malformed escapes)'})
+    use_sites(ctx, res, vals)
     res.traces = res.evaluations
+
+
+def use_sites(ctx, res, vals):
+    """every text slot of the writers carries exactly the token of the codec (no second encoding path)"""
+    import wire
+    import lightstreamer_adapter.data_protocol as dp
+    import lightstreamer_adapter.metadata_protocol as mp
+    from lightstreamer_adapter import protocol
+    sample = [v for v in wire.SPECIALS] + [v for v in vals if isinstance(v, str) and v][:: max(1, len(vals) // 400)]
+    for v in sample:
+        t = protocol.encode_string(v)
+        want = {
+            'write_update_map': (lambda: dp.write_update_map(v, v, True, {v: v}), ['UD3', 'S', t, 'S', t, 'B', '1', 'S', t, 'S', t]),
+            'write_eos': (lambda: dp.write_eos(v, v), ['EOS', 'S', t, 'S', t]),
+            'write_cls': (lambda: dp.write_cls(v, v), ['CLS', 'S', t, 'S', t]),
+            'write_get_items': (lambda: mp.write_get_items([v, v]), ['GIS', 'S', t, 'S', t]),
+            'write_get_schema': (lambda: mp.write_get_schema([v]), ['GSC', 'S', t]),
+            'write_credentials': (lambda: protocol.write_credentials(v, v), None),
+            'write_failure': (lambda: dp.write_failure(Exception(v)), ['FAL', 'E', protocol.encode_string(str(Exception(v)))]),
+        }
+        for name, (fn, toks) in want.items():
+            res.evaluations += 1
+            res.count('use-site:' + name)
+            try:
+                line = fn()
+            except Exception as e:
+                res.oracle_violations.append({'case': {'writer': name, 'value_scalars': [ord(c) for c in v][:64]},
+                                              'detail': '%s raised %r for a text value' % (name, e), 'key': {'stage': 'use-site', 'writer': name}})
+                continue
+            got = line.split('|')
+            if toks is None:
+                ok = got[:2] == ['RAC', 'S'] and got[2:6] == ['user', 'S', t, 'S'] and got[6:9] == ['password', 'S', t]
+            else:
+                ok = got == toks
+            if not ok or any(c not in ALPHABET_STR for c in line.replace('|', '')):
+                res.oracle_violations.append({'case': {'writer': name, 'value_scalars': [ord(c) for c in v][:64], 'line': line[:300]},
+                                              'detail': '%s: the text slots of %r are not the codec token %r of the value' % (name, line[:120], t),
+                                              'key': {'stage': 'use-site', 'writer': name}})
 
 
 def search(ctx, res):
